@@ -38,7 +38,33 @@ def lengths_special(rng):
     return [rng.randrange(1, 12) for _ in range(m)]
 
 
+def gen_many_runs(rng, cid):
+    """17..64 short runs, 2-4 distinct keys, many ranks: the sample of the initial partition has more than
+    16 entries with equal keys (std::sort is only stable up to 16 elements), ties across many sequences"""
+    cmp = rng.choice(["lt", "lt", "gt", "half"])
+    m = rng.choice([17, 17, 18, 20, 24, 31, 32, 33, 40, 48, 64])
+    nv = rng.choice([2, 2, 3, 4])
+    vals = list(range(nv)) if cmp != "half" else list(range(2 * nv))
+    maxlen = rng.choice([1, 2, 3, 3, 6])
+    # mostly equal lengths, so that (almost) every run contributes a real sample to the initial partition
+    runs = [make_run(rng, cmp, maxlen if rng.random() < 0.7 else rng.randrange(1, maxlen + 1), vals) for _ in range(m)]
+    N = sum(len(r) for r in runs)
+    if N <= 40:
+        ranks = list(range(N + 1))
+    else:
+        ranks = sorted(set([0, 1, N - 1, N] + [rng.randrange(N + 1) for _ in range(24)]))
+    lines = [f"case m{cid}"]
+    tail = " ".join(csv(r) for r in runs)
+    for r in ranks:
+        lines.append(f"part {cmp} {r} {tail}")
+        if r < N and rng.random() < 0.25:
+            lines.append(f"sel {cmp} {r} {tail}")
+    return lines
+
+
 def gen_case(rng, cid, tier):
+    if rng.random() < 0.07:
+        return gen_many_runs(rng, cid)
     cmp = rng.choice(["lt", "lt", "lt", "gt", "half"])
     style = rng.random()
     if style < 0.45:
